@@ -45,6 +45,19 @@ def nonLocal (faces : List Face) (g : FaceId) : Bool :=
   | some fc => !fc.isLocal
   | none => false
 
+/-! ### which faces are non-local (C09): the scope a transport must assign -/
+
+/-- textual loopback test on canonical addresses: IPv4 127.0.0.0/8, IPv6 ::1 -/
+def isLoopbackText (a : String) : Bool :=
+  if a.contains ':' then a == "::1"
+  else match a.splitOn "." with
+    | [o1, _, _, _] => o1 == "127"
+    | _ => false
+
+/-- specification of the scope classification: Unix-stream faces and faces whose remote address is a
+    loopback address are Local, every other unicast TCP/UDP face is NonLocal -/
+def scopeLocal (kind addr : String) : Bool := kind == "unix" || isLoopbackText addr
+
 /-! ## (2) the ledger -/
 
 structure Key where
